@@ -195,9 +195,26 @@ func init() {
 		}
 		return Val{T: Eq(x.bytesOf(st, a[0]), x.bytesOf(st, a[1])), Typ: types.Typ[types.Bool]}, true
 	}
-	natives[pkgSDK+"(AccAddress).Equals"] = func(x *Exec, st *State, fr *Frame, at ssa.Instruction, a []Val) (Val, bool) {
-		return Val{}, false // argument is an interface (Address); leave abstract
+	// Address.Equals(Address): both empty, or equal bytes — i.e. equal byte content. The argument is
+	// an interface; when its dynamic payload is statically known we compare contents directly,
+	// otherwise through an uninterpreted "bytes of the address behind this interface".
+	addrEquals := func(x *Exec, st *State, fr *Frame, at ssa.Instruction, a []Val) (Val, bool) {
+		if a[0].T.Sort != SSlice {
+			return Val{}, false
+		}
+		var other Term
+		if a[1].Dyn != nil && a[1].Dyn.T.Sort == SSlice {
+			other = x.bytesOf(st, *a[1].Dyn)
+		} else if a[1].T.Sort == SIface {
+			x.D.DeclareFun("addr.bytes", []string{SIface}, SBytes)
+			other = App(SBytes, "addr.bytes", a[1].T)
+		} else {
+			return Val{}, false
+		}
+		return Val{T: Eq(x.bytesOf(st, a[0]), other), Typ: types.Typ[types.Bool]}, true
 	}
+	natives[pkgSDK+"(AccAddress).Equals"] = addrEquals
+	natives[pkgSDK+"(ValAddress).Equals"] = addrEquals
 	_ = addrEq
 	addrString := func(kind string) nativeFn {
 		return func(x *Exec, st *State, fr *Frame, at ssa.Instruction, a []Val) (Val, bool) {
